@@ -13,26 +13,41 @@ Driver ops of C10.
 namespace Drv.C10
 open Genotype SelLimit
 
-/-- a population as the driver receives it: phased (`G`) or unphased (`Z`, `ploidy`) -/
+/-- a population as the driver receives it: phased (`G`), unphased (`Z`, `ploidy`), or run-length
+    compressed (`rows` = distinct dosage rows, `mult` = how many taxa carry each; very large populations) -/
 structure PopIn where
   ploidy : Nat
   nt : Nat
-  Z : UMat                 -- dosage matrix (projection when phased)
+  Z : UMat                 -- dosage rows (projection when phased; distinct rows when compressed)
   G : Option PMat
+  mult : Option (List Nat)
 
 def decPop (nv : Nat) (j : Json) : J.R PopIn := do
   let nt ← J.field j "nt" J.nat
   match ← J.fieldOpt j "G" (J.list (J.mat J.int)) with
-  | some G => pure { ploidy := G.length, nt := nt, Z := psum nt nv G, G := some G }
+  | some G => pure { ploidy := G.length, nt := nt, Z := psum nt nv G, G := some G, mult := none }
   | none =>
-    let Z ← J.field j "Z" (J.mat J.int)
     let pl ← J.field j "ploidy" J.nat
-    pure { ploidy := pl, nt := nt, Z := Z, G := none }
+    match ← J.fieldOpt j "rows" (J.mat J.int) with
+    | some rows =>
+      let mult ← J.field j "mult" (J.list J.nat)
+      pure { ploidy := pl, nt := nt, Z := rows, G := none, mult := some mult }
+    | none =>
+      let Z ← J.field j "Z" (J.mat J.int)
+      pure { ploidy := pl, nt := nt, Z := Z, G := none, mult := none }
 
 def popFreq (nv : Nat) (P : PopIn) : List Rat :=
-  match P.G with
-  | some G => pafreq (α := Rat) P.nt nv G
-  | none => afreq (α := Rat) P.ploidy nv P.Z
+  match P.G, P.mult with
+  | some G, _ => pafreq (α := Rat) P.nt nv G
+  | none, some mult => afreqW (α := Rat) P.ploidy P.nt nv P.Z mult
+  | none, none => afreq (α := Rat) P.ploidy nv P.Z
+
+def popValid (nv : Nat) (P : PopIn) : Bool :=
+  match P.G, P.mult with
+  | some G, _ => decide (ValidP P.nt nv G)
+  | none, some mult => decide (ValidU P.ploidy nv P.Z) && mult.length == P.Z.length && mult.sum == P.nt
+      && mult.all (0 < ·)
+  | none, none => decide (ValidU P.ploidy nv P.Z) && P.Z.length == P.nt
 
 /-- {"op":"c10.limits","nv","ntrait","U","beta","pop":{..}} -/
 def opLimits : J.Op := fun j => do
@@ -47,9 +62,7 @@ def opLimits : J.Op := fun j => do
   let ls := lsl P.ploidy nv ntr U p
   let gv := gebv nv ntr U P.Z
   let addLoc (v : List Rat) : List Rat := List.zipWith (· + ·) v loc
-  let valid : Bool := match P.G with
-    | some G => decide (ValidP P.nt nv G)
-    | none => decide (ValidU P.ploidy nv P.Z)
+  let valid : Bool := popValid nv P
   pure <| J.obj [("afreq", J.ofList J.ofRat p), ("usl", J.ofList J.ofRat us), ("lsl", J.ofList J.ofRat ls),
     ("usl_un", J.ofList J.ofRat (addLoc us)), ("lsl_un", J.ofList J.ofRat (addLoc ls)),
     ("gebv_raw", J.ofMat J.ofRat gv), ("gebv_un", J.ofMat J.ofRat (gv.map addLoc)),
@@ -127,7 +140,7 @@ def specHistory (nv ntr : Nat) (tol : Rat) (pops : List PopIn) (obs : List ObsGe
   let shape := gens.filterMap (fun g =>
     let o := g.2.2
     if o.usl.length == ntr && o.lsl.length == ntr && o.uslUn.length == ntr && o.lslUn.length == ntr
-       && o.gebvRaw.length == g.2.1.nt && o.gebvUn.length == g.2.1.nt then none
+       && o.gebvRaw.length == g.2.1.Z.length && o.gebvUn.length == g.2.1.Z.length then none
     else some s!"gen{g.1}:shape")
   let own := gens.flatMap (fun g =>
     let o := g.2.2
